@@ -5,7 +5,7 @@ YAML Path processor based on ruamel.yaml.
 Copyright 2018, 2019, 2020, 2021, 2022 William W. Kimball, Jr. MBA MSIS
 """
 from collections import OrderedDict
-from typing import Any, Dict, Generator, List, Union
+from typing import Any, Dict, Generator, List, Tuple, Union
 
 from ruamel.yaml.compat import ordereddict as ryod
 from ruamel.yaml.comments import (
@@ -748,11 +748,63 @@ class Processor:
         - `YAMLPathException` when the operation would destroy the entire
            document
         """
-        # pylint: disable=locally-disabled,too-many-nested-blocks
-        for delete_nc in reversed(delete_nodes):
-            node = delete_nc.node
+        # Collector and slice results are virtual:  lists of (or wrappers for)
+        # NodeCoords.  Reduce them to the NodeCoords of real DOM nodes.
+        real_ncs: List[NodeCoords] = []
+
+        def gather_real_nodes(node_coords: List[NodeCoords]) -> None:
+            for node_coord in node_coords:
+                node = node_coord.node
+                if (isinstance(node, list)
+                    and len(node) > 0
+                    and isinstance(node[0], NodeCoords)
+                ):
+                    gather_real_nodes(node)
+                elif isinstance(node, NodeCoords):
+                    gather_real_nodes([node])
+                else:
+                    real_ncs.append(node_coord)
+
+        gather_real_nodes(delete_nodes)
+
+        # Refuse before anything is deleted
+        for delete_nc in real_ncs:
+            if not isinstance(
+                delete_nc.parent, (dict, list, set, CommentedSet)
+            ):
+                # Edge-case:  Attempt to delete from a document which is
+                # entirely one Scalar value OR user is deleting the entire
+                # document.
+                raise NoDocumentYAMLPathException(
+                    "Refusing to delete the entire document!  Ensure the"
+                    " source document is YAML, JSON, or compatible and the"
+                    " target nodes do not include the document root.",
+                    str(delete_nc.path)
+                )
+
+        # Delete every distinct node exactly once.  List elements must be
+        # deleted from the highest index down to avoid corrupting the indecies
+        # of the elements yet to be deleted.
+        seen_refs: set = set()
+        unique_ncs: List[Tuple[int, Any, NodeCoords]] = []
+        for delete_nc in real_ncs:
             parent = delete_nc.parent
             parentref = delete_nc.parentref
+            order = 0
+            if isinstance(parent, list):
+                if parentref < 0:
+                    parentref += len(parent)
+                order = parentref
+            ref_id = (id(parent), parentref)
+            if ref_id in seen_refs:
+                continue
+            seen_refs.add(ref_id)
+            unique_ncs.append((order, parentref, delete_nc))
+        unique_ncs.sort(key=lambda entry: entry[0])
+
+        # pylint: disable=locally-disabled,too-many-nested-blocks
+        for (_, parentref, delete_nc) in reversed(unique_ncs):
+            parent = delete_nc.parent
             ancestry = delete_nc.ancestry
             self.logger.debug(
                 "Deleting node:",
@@ -762,11 +814,7 @@ class Processor:
                 data=delete_nc)
 
             # Ensure the reference exists before attempting to delete it
-            if isinstance(node, list) and isinstance(node[0], NodeCoords):
-                self._delete_nodes(node)
-            elif isinstance(node, NodeCoords):
-                self._delete_nodes([node])
-            elif isinstance(parent, (CommentedMap, dict)):
+            if isinstance(parent, (CommentedMap, dict)):
                 all_data = ancestry[0][0] if len(ancestry) > 0 else parent
                 all_anchors: Dict[str, Any] = {}
                 Anchors.scan_for_anchors(all_data, all_anchors)
@@ -794,18 +842,8 @@ class Processor:
             elif isinstance(parent, (CommentedSeq, list)):
                 if len(parent) > parentref:
                     del parent[parentref]
-            elif isinstance(parent, (CommentedSet, set)):
-                parent.discard(parentref)
             else:
-                # Edge-case:  Attempt to delete from a document which is
-                # entirely one Scalar value OR user is deleting the entire
-                # document.
-                raise NoDocumentYAMLPathException(
-                    "Refusing to delete the entire document!  Ensure the"
-                    " source document is YAML, JSON, or compatible and the"
-                    " target nodes do not include the document root.",
-                    str(delete_nc.path)
-                )
+                parent.discard(parentref)
 
     # pylint: disable=locally-disabled,too-many-branches,too-many-locals
     def _get_nodes_by_path_segment(
@@ -1120,7 +1158,7 @@ class Processor:
                     sliced_elements = []
                     for slice_index in range(intmin, intmax):
                         sliced_elements.append(NodeCoords(
-                            data[slice_index], data, intmin,
+                            data[slice_index], data, slice_index,
                             translated_path + "[{}]".format(slice_index),
                             ancestry + [(data, slice_index)], pathseg))
                     yield NodeCoords(
